@@ -73,6 +73,15 @@ Definition ends_value (t : token) : bool :=
 Lemma tf_tok_rightsided t : impl_tok_rightsided (kind_of_token t) = ends_value t.
 Proof. destruct t; reflexivity. Qed.
 
+Definition assigns (t : token) : bool :=
+  match t with
+  | TAssign | TPlusAssign | TMinusAssign | TStarAssign | TSlashAssign | TPercentAssign | THatAssign
+  | TAndAssign | TOrAssign => true
+  | _ => false
+  end.
+Lemma tf_tok_assignment t : impl_tok_assignment (kind_of_token t) = assigns t.
+Proof. destruct t; reflexivity. Qed.
+
 Lemma tf_tok_assignment_not_leftsided t :
   impl_tok_assignment (kind_of_token t) = true -> starts_value t = false.
 Proof. destruct t; cbn; intros H; try discriminate H; reflexivity. Qed.
@@ -120,6 +129,8 @@ Lemma is_leftsided_starts t : is_leftsided_value t = starts_value t.
 Proof. apply tf_tok_leftsided. Qed.
 Lemma is_rightsided_ends t : is_rightsided_value t = ends_value t.
 Proof. apply tf_tok_rightsided. Qed.
+Lemma is_assignment_assigns t : is_assignment t = assigns t.
+Proof. apply tf_tok_assignment. Qed.
 Lemma is_assignment_not_starts t : is_assignment t = true -> starts_value t = false.
 Proof. apply tf_tok_assignment_not_leftsided. Qed.
 
